@@ -180,6 +180,31 @@ reg("C04", sim(
     f"all choice vectors with ≤ 2 (3 thorough) non-default entries over alphabet {FATES}; distinct = distinct trace hashes",
     "DESIGN.md §4 C04"))
 
+reg("C16", sim(
+    "model_checking",
+    "All histories of depth 3 (4 thorough) over {create/delete remote reader a, create/delete remote reader b, make a's deadline "
+    "(in)compatible, change a's subscriber partition, delete b's participant, silence b's participant until its lease (1 s) "
+    "expires, create/delete a second local writer} against three real participants, with the matched statuses read after every "
+    "step, and depth 4 (5) with the statuses read only at the end (change fields then span several events). After every step: "
+    "the writer's matched list equals the specified matched set for the reader the step touched; current_count equals the list "
+    "length; total_count grows by the number of new list members; both change fields equal the difference since the previous "
+    "read; reader-side status consistent with the reader's own list and with the writer side; after an unmatch no DATA/HEARTBEAT/GAP "
+    "of the writer is addressed to a participant without matched readers. The specification is re-synchronised on the "
+    "implementation's belief after every step so that a listed finding does not cascade.",
+    API_RULE if False else "every operation history up to the depth over the 7-operation alphabet (one OP choice point per step, all alternatives); "
+    "distinct = distinct observation traces", "DESIGN.md §4 C16", floor=(500, 100)))
+
+reg("C17", sim(
+    "fault_enumeration",
+    "Two participants on one shared multicast medium with (domain, tag) in {(0,0,same), (0,1,same), (0,0,different tag)}: all fate "
+    "vectors with ≤ 2 (3) non-default fates over every SPDP datagram between them; same domain and tag must discover each other "
+    "within 1.5 s (7 announcement periods) after the last fault, different domain or tag never. Lease expiry: lease in {1 s, 2 s} "
+    "(patched into SPDP in flight) x silence starting {0,70,130,199} ms after an announcement: removal no earlier than lease and no "
+    "later than lease + 50 ms (+15 ms polling slack) after the last delivered datagram. An ignored participant must not reappear "
+    "during 2 s of further announcements.",
+    f"all choice vectors with ≤ bound non-default entries over alphabet {FATES} on SPDP datagrams; the lease scenarios are single "
+    f"executions per (lease, phase); distinct = distinct trace hashes", "DESIGN.md §4 C17", floor=(500, 100)))
+
 API_RULE = ("every operation history up to the stated depth over the stated alphabet (one OP choice point per step, all "
             "alternatives at every step = full enumeration, no deviation bound); each history is one execution against a real "
             "participant and its worker; every return value is compared with a reference contract model; distinct = distinct "
